@@ -316,6 +316,25 @@ CLAIMED = {
         "technique": "Coq proof by case analysis over Z + exhaustive 2^32 sweep of the implementation",
         "design_ref": "DESIGN.md section 7 (C19)",
     },
+    "C20": {
+        "category": "proof",
+        "text": "Theorems with geo-types / geo-traits MODELLED as list structures (Polygon::new and interiors_push close rings): "
+                "C20_to_geo (points, multipoints, polylines of any dimension become Point / MultiPoint / MultiLineString holding "
+                "every X/Y pair in order and grouping), C20_polygon_grouping (for closed rings with an outer first, flattening "
+                "the produced polygons - exterior then holes - gives back exactly the rings' X/Y sequences and roles in order: "
+                "each outer opens a polygon, following inners are its holes), C20_back (2-D point, multipoint, polyline come back "
+                "as the original through their constructor), C20_from_geo (MultiPoint, LineString, MultiLineString -> shape -> "
+                "geometry is the identity), C20_refusals (null shape, strip/fan multipatch, collection, rect, triangle are error "
+                "values), C20_dims (for Point/PointM/PointZ and EVERY measure pattern the dimension count is 2..4 and every index "
+                "below it reads the matching field without panic). PARTIAL: polygon -> geometry -> polygon and geometry -> "
+                "polygon -> geometry (equal up to ring orientation) are decided by the correspondence and its oracle only. "
+                "KNOWN FINDING F12: a one-coordinate LineString panics.",
+        "note": COMMON_NOTE + "Separate harness crate harness/runner-geo built with features geo-types, geo-traits (both in the "
+                "offline registry).",
+        "technique": "Coq proof (list-structure model of geo-types; ring-grouping loop invariant; case analysis for the "
+                     "geo-traits view) + differential correspondence on all geometry variants",
+        "design_ref": "DESIGN.md section 7 (C20)",
+    },
 }
 
 PENDING_REASON = "not claimed yet: check under construction (see DESIGN.md section 11, order of work)"
